@@ -107,6 +107,10 @@ DescTable == [
     wrongtype        |-> [t |-> ScenarioTargets, at |-> 1, v |-> "reject"],
     unknown_plugin   |-> [t |-> ScenarioTargets, at |-> 1, v |-> "reject"],
     missing_source   |-> [t |-> ScenarioTargets, at |-> 1, v |-> "reject"],
+    bad_csv          |-> [t |-> ScenarioTargets, at |-> 1, v |-> "reject"],
+    bad_json_source  |-> [t |-> ScenarioTargets, at |-> 1, v |-> "reject"],
+    unknown_source   |-> [t |-> ScenarioTargets, at |-> 1, v |-> "reject"],
+    no_scenarios     |-> [t |-> ScenarioTargets, at |-> 2, v |-> "reject"],
     neg_weight       |-> [t |-> ScenarioTargets, at |-> 1, v |-> "reject"],
     var_randint_eq   |-> [t |-> ScenarioTargets, at |-> 1, v |-> "either"],
     var_randint_ovf  |-> [t |-> ScenarioTargets, at |-> 1, v |-> "either"],
